@@ -100,3 +100,23 @@ package epubdoc
 //@   property C02
 //@   flags callsites
 //@   callsite parseOLEntries(o) requires depth_checked_before_the_recursive_walks: !navTreeDepthExceeds(doc, maxNavTreeDepth)
+
+// ---- C20: the DRM check is unconditional: every EPUB that opens has been checked (exactly once), whether or not it has
+// a valid mimetype member, and a refusal of the check is what init returns ----
+//@ func (*Reader) init results (err)
+//@   property C20
+//@   flags nosafety
+//@   count drm: checkForDRM(z) when true
+//@   ensures opened_only_after_the_drm_check: !err ==> drm == 1
+//@   callsite parseContainer(z) requires drm_checked_before_the_package_is_read: drm == 1
+
+// ---- C19: the navigation-exclusion mode the caller asks for is the mode every chapter is extracted with (mode None
+// included: it is not "unset") ----
+//@ func (*Reader) TextWithOptions results (res, err)
+//@   property C19
+//@   flags callsites
+//@   callsite TextWithOptions(o) requires requested_mode_is_the_mode_used: o.NavigationExclusion == opts.NavigationExclusion
+//@ func (*Reader) MarkdownWithOptions results (res, err)
+//@   property C19
+//@   flags callsites
+//@   callsite MarkdownWithOptions(o) requires requested_mode_is_the_mode_used: o.NavigationExclusion == opts.NavigationExclusion
